@@ -1,0 +1,27 @@
+// Copyright (c) 2026 10X Genomics, Inc. All rights reserved.
+
+//go:build verif
+
+package core
+
+import (
+	"encoding/json"
+
+	"github.com/martian-lang/martian/martian/syntax"
+)
+
+// Exports for the external verification harness (property C16: MRO call
+// text <-> invocation JSON).  Only compiled with `-tags verif`.
+
+// VerifConvertToExp exposes convertToExp with a fresh parser.
+func VerifConvertToExp(split bool, val json.Marshaler,
+	tname syntax.TypeId, lookup *syntax.TypeLookup) (syntax.ValExp, error) {
+	var parser syntax.Parser
+	return convertToExp(&parser, split, val, tname, lookup)
+}
+
+// VerifMarshalerArray builds the unexported array form of a resolved
+// argument, as produced by the runtime's argument resolver.
+func VerifMarshalerArray(elems []json.Marshaler) json.Marshaler {
+	return marshallerArray(elems)
+}
